@@ -23,6 +23,7 @@ import SccacheModel.Driver.RustKey
 import SccacheModel.Driver.Shutdown
 import SccacheModel.Driver.AtFile
 import SccacheModel.Driver.Frame
+import SccacheModel.Driver.ClientTc
 
 /-- `modeld <model>`: line-protocol driver, one sub-command per executable model (DESIGN.md C.1) -/
 def main (args : List String) : IO UInt32 := do
@@ -53,4 +54,5 @@ def main (args : List String) : IO UInt32 := do
   | ["shutdown"] => DrvShutdown.main *> pure 0
   | ["atfile"] => DrvAtFile.main *> pure 0
   | ["frame"] => DrvFrame.main *> pure 0
+  | ["clienttc"] => DrvClientTc.main *> pure 0
   | _ => do IO.eprintln "usage: modeld <model>"; pure 2
